@@ -225,7 +225,7 @@ pub fn features(fe: &str, text: &str) -> Value {
 
 #[derive(Clone, Debug)]
 pub enum Outcome {
-    Ok { tokens: usize, lints: usize, micros: u128, bad_tokens: usize, unordered: bool },
+    Ok { tokens: usize, lints: usize, micros: u128, bad_tokens: usize, unordered: bool, span_order_bad: usize, span_order_what: String },
     Panic { stage: &'static str, msg: String, loc: String },
     Hang { secs: u64, stage: &'static str },
     /// not run: the search was cut short after MAX_HANGS hangs (hung threads cannot be killed and keep a core busy)
@@ -305,7 +305,35 @@ impl Worker {
                 // premise of the C01 pattern theorems (C02's invariant): every token lies inside the source
                 let bad_tokens = toks.iter().filter(|t| t.span.start > t.span.end || t.span.end > n).count();
                 let unordered = toks.windows(2).any(|w| w[0].span.end > w[1].span.start);
-                Outcome::Ok { tokens: toks.len(), lints: l.len(), micros: t0.elapsed().as_micros(), bad_tokens, unordered }
+                // premise span_ord of the Span::new site theorems (phase 7; weaker than C02's OrderedDisjoint + ZeroWidthOnlyBreaks):
+                // (a) a Word / Number / Punctuation / Space token is never empty, (b) the start offsets of the tokens that
+                // cover characters never decrease (zero-width tokens may sit anywhere, a token may be emitted twice)
+                let mut span_order_bad = 0usize;
+                if std::env::var_os("C01_DUMP_TOKENS").is_some() {
+                    eprintln!("tokens of {:?}: {}", c.text, toks.iter().map(|t| format!("{}..{}:{}", t.span.start, t.span.end, format!("{:?}", t.kind).chars().take(6).collect::<String>())).collect::<Vec<_>>().join(" "));
+                }
+                let mut hi = 0usize;
+                let mut span_order_what = String::new();
+                for (ti, t) in toks.iter().enumerate() {
+                    use harper_core::TokenKind as K;
+                    let nz_kind = matches!(t.kind, K::Word(_) | K::Number(_) | K::Punctuation(_) | K::Space(_));
+                    if nz_kind && t.span.start >= t.span.end {
+                        span_order_bad += 1;
+                        if span_order_what.is_empty() {
+                            span_order_what = format!("token {ti} {} {}..{} is empty", format!("{:?}", t.kind).chars().take(12).collect::<String>(), t.span.start, t.span.end);
+                        }
+                    }
+                    if t.span.start < t.span.end {
+                        if t.span.start < hi {
+                            span_order_bad += 1;
+                            if span_order_what.is_empty() {
+                                span_order_what = format!("token {ti} {} {}..{} starts before the start {hi} of the token before it", format!("{:?}", t.kind).chars().take(12).collect::<String>(), t.span.start, t.span.end);
+                            }
+                        }
+                        hi = t.span.start;
+                    }
+                }
+                Outcome::Ok { tokens: toks.len(), lints: l.len(), micros: t0.elapsed().as_micros(), bad_tokens, unordered, span_order_bad, span_order_what }
             }
             Err((msg, loc)) => {
                 // the group's cache may be half-updated: rebuild it
@@ -1127,7 +1155,11 @@ fn record(rep: &mut Report, c: &Case, o: &Outcome) {
     let n = c.text.chars().count();
     rep.count(&format!("chars:{}", if n == 0 { "0" } else if n < 16 { "1-15" } else if n < 64 { "16-63" } else if n < 256 { "64-255" } else if n < 1024 { "256-1023" } else { "1024+" }));
     match o {
-        Outcome::Ok { tokens, lints, micros, bad_tokens, unordered } => {
+        Outcome::Ok { tokens, lints, micros, bad_tokens, unordered, span_order_bad, span_order_what } => {
+            rep.monitor("span_order_violations", *span_order_bad as u64);
+            if *span_order_bad > 0 {
+                rep.fail("span_order_hypothesis", format!("{span_order_bad} violation(s) of span_ord, first: {span_order_what} (an empty Word/Number/Punctuation/Space token, or a token that covers characters and starts before its predecessor does): premise of C01_span_new_sites_total; no panic this time"), c.to_json());
+            }
             rep.monitor("docs_checked_for_tokens_inside_source", 1);
             rep.monitor("tokens_outside_source", *bad_tokens as u64);
             if *bad_tokens > 0 {
